@@ -60,6 +60,14 @@ def correspond(ctx):
     for k in RW:
         K.corr_roundtrip(ctx, ADAPTERS[k], ctx.n(700, 2500))
     from ._cube import CUBE, corr_loop
+    from ._fcidump import corr_index
+    from ._mol2 import MOL2
+
+    K.corr_roundtrip(ctx, MOL2, ctx.n(700, 2500))
+    corr_index(ctx, ctx.n(7, 10))
+    from ._poscar import corr_struct
+
+    corr_struct(ctx, ctx.n(200, 800))
 
     K.corr_roundtrip(ctx, CUBE, ctx.n(800, 3000))
     corr_loop(ctx, ctx.n(500, 2000))
